@@ -76,6 +76,7 @@ func main() {
 		selftest = flag.String("selftest", "", "determinism: print event hashes of worlds to this file")
 		solo     = flag.Bool("solo", false, "C07 variant d child: world on stdin, observation log on stdout")
 		fork     = flag.Bool("fork", false, "run every world in its own fresh child process (cold properties)")
+		norecheck = flag.Bool("norecheck", false, "skip the in-run determinism re-check")
 	)
 	flag.Parse()
 	if *solo {
@@ -133,12 +134,18 @@ func main() {
 			hashes = append(hashes, fmt.Sprintf("%d %016x %016x", i, info.Hash, info.Interleave))
 		}
 		// in-run determinism re-check on 2% of the worlds
-		if i%50 == 7 && !impl.NoRecheck {
+		if i%50 == 7 && !impl.NoRecheck && !*norecheck {
 			w2 := genWorld(impl, *seed, i, *tier)
 			v2, info2 := impl.Exec(w2, NewStats())
 			st.Rechecks++
 			if info2.Hash != info.Hash || (v == nil) != (v2 == nil) {
-				fatal(2, "harness nondeterminism: world %d of %s seed %d re-executed with a different event hash (%x vs %x)", i, *prop, *seed, info.Hash, info2.Hash)
+				// Either the harness is nondeterministic, or the module under test keeps process-wide
+				// state that the first execution changed (a free list, a cache).  Tell them apart:
+				// two fresh processes that run this batch up to world i must agree with each other.
+				if !prefixDeterministic(*prop, *seed, *from, i, *tier) {
+					fatal(2, "harness nondeterminism: world %d of %s seed %d re-executed with a different event hash (%x vs %x), and two fresh processes running worlds %d..%d disagree too", i, *prop, *seed, info.Hash, info2.Hash, *from, i)
+				}
+				st.C("recheck_needed_fresh_processes")
 			}
 		}
 		if len(st.Samples) < 3 && info.Nontrivial && (i-*from)%3 == 0 {
@@ -184,6 +191,31 @@ func main() {
 	} else if err := os.WriteFile(*out, b, 0o644); err != nil {
 		fatal(2, "%v", err)
 	}
+}
+
+// prefixDeterministic runs worlds from..upto in two fresh child processes and
+// reports whether their per-world event hashes agree.
+func prefixDeterministic(prop string, seed uint64, from, upto int, tier string) bool {
+	self, err := os.Executable()
+	if err != nil {
+		return false
+	}
+	var outs [2]string
+	for k := range outs {
+		f, err := os.CreateTemp("", "verif-recheck-*")
+		if err != nil {
+			return false
+		}
+		f.Close()
+		defer os.Remove(f.Name())
+		cmd := exec.Command(self, "-prop", prop, "-seed", fmt.Sprint(seed), "-from", fmt.Sprint(from), "-n", fmt.Sprint(upto-from+1), "-tier", tier, "-selftest", f.Name(), "-out", os.DevNull, "-norecheck")
+		if err := cmd.Run(); err != nil {
+			return false
+		}
+		b, _ := os.ReadFile(f.Name())
+		outs[k] = string(b)
+	}
+	return outs[0] != "" && outs[0] == outs[1]
 }
 
 // forkBatch runs worlds from..from+n-1 each in a fresh child process (the worker
